@@ -155,7 +155,11 @@ Qed.
 Lemma fmt_g_zero x : Qeqb x 0 = true -> fmt_g p x = "0".
 Proof. unfold Qeqb, fmt_g. destruct (x ?= 0)%Q; try discriminate. reflexivity. Qed.
 
-(* the parenthesised approximation: float(f) formatted, Decimal division beyond the float range *)
+(* the parenthesised approximation: float(f) formatted, Decimal division beyond the float range.
+   The fallback's `with localcontext() as ctx: ctx.Emax, ctx.Emin = MAX_EMAX, MIN_EMIN` block (accepted by the
+   translator in exactly this shape) contributes no term: it only lifts the default context's Overflow /
+   Underflow traps, which the exact quotient py_dec_div never had; any other change of the decimal context
+   (prec, rounding, ..) leaves g_precisionify_frac undefined and this lemma unprovable. *)
 Lemma precisionify_frac_is_source q : g_precisionify_frac p q = Ok (approx_text p q).
 Proof.
   unfold g_precisionify_frac, approx_text, py_float_of_frac.
